@@ -4,6 +4,7 @@ import PMV.Proofs.PyCoreMono
 import PMV.Proofs.PyCoreImports
 import PMV.Proofs.PyCoreBindInst
 import PMV.Proofs.RemovePass
+import PMV.Proofs.DropGuard
 import PMV.Proofs.PyCoreRename2
 import PMV.Proofs.PyCoreHoist2
 import PMV.Proofs.PyCoreAnn
@@ -82,14 +83,14 @@ theorem convert_posargs_preserves (n : Nat) (m : Module) (hcore : (run n m).endi
     turns a local variable into a global one, under `-O` too (finding F38) … -/
 theorem remove_asserts_preserves_under_O (n : Nat) (m : Module) (hs : scopeStable removeAsserts m = true) :
     runO n (travModule removeAsserts m) = runO n m :=
-  runO_trav (dropT isAssert) (dropT_sound isAssert isAssert_noop) (dropT_table (o := true) isAssert isAssert_noop) n m
+  runO_trav (guardT isAssert) (guardT_sound isAssert isAssert_noop) (guardT_table (o := true) isAssert isAssert_noop) n m
     (stable_of_scopeStable _ m hs)
 
 /-- … and so does remove_debug: the removed `if __debug__:` blocks (the documented spellings, no `else`) do nothing there. -/
 theorem remove_debug_preserves_under_O (n : Nat) (m : Module) (hs : scopeStable removeDebug m = true) :
     runO n (travModule removeDebug m) = runO n m :=
-  runO_trav (dropT canRemoveDebug) (dropT_sound canRemoveDebug canRemoveDebug_noop)
-    (dropT_table (o := true) canRemoveDebug canRemoveDebug_noop) n m (stable_of_scopeStable _ m hs)
+  runO_trav (guardT canRemoveDebug) (guardT_sound canRemoveDebug canRemoveDebug_noop)
+    (guardT_table (o := true) canRemoveDebug canRemoveDebug_noop) n m (stable_of_scopeStable _ m hs)
 
 /-- T01.12: combine_imports leaves the observable unchanged, where the observable now includes the sequence of import
     events (which module, bound to which name, in which order): merged statements import the same modules in the
@@ -229,7 +230,7 @@ theorem witness_original_under_O : (runO 3 scopingWitness).ending = "raised:Unbo
 
 set_option linter.unusedSimpArgs false in
 theorem witness_minified_under_O : (runO 3 (travModule removeDebug scopingWitness)).ending = "normal" := by
-  simp [runO, scopingWitness, travModule, travBody, travStmt, removeDebug, filterSuite, canRemoveDebug, isDebugName, zeroStmt,
+  simp [runO, scopingWitness, travModule, travBody, travStmt, removeDebug, guardT, dropGuard, isStrStmt, filterSuite, canRemoveDebug, isDebugName, zeroStmt,
     collect, defOf, paramNames, execL, exec1, callOf, simpleExec, isAssertStmt, assignTarget, evalThen, evalE,
     St.init, St.assign, Env.set, Env.get, callFn, evalArgs, List.lookup, bindTop, bindS, oguard, oapp, coreE, coreX, bindL, declaredGlobals, globalsOf,
     condE, isDbgName, debugCmp, debugSense, isDebugTest, Val.truthy, exprStmt, isConst, printArgs, St.lookup, St.unbound, St.isLocal, asCall, observe, canonNames, insertName, isPlainDef, argPlain]
